@@ -374,9 +374,9 @@ func runFBCCITT(c *Ctx) {
 			ok, k, desc := oracleFilterRT(p.filter(), pdf.V1_7, data, r, wmode, rmode)
 			cl := fbCCClass(p, data)
 			if cl == "" {
-				c.Stat("ccitt_supported_class")
+				c.Stat("ccitt_class_none")
 			} else {
-				c.Stat("ccitt_known_class_" + cl)
+				c.Stat("ccitt_class_" + cl)
 			}
 			if !ok {
 				if k == "roundtrip" && cl != "" {
@@ -400,6 +400,12 @@ func runFBCCITT(c *Ctx) {
 				bad = append(bad, r.Bytes(1+r.Intn(6))...)
 			default:
 				bad = append(r.Bytes(1+r.Intn(2)), bad...)
+			}
+			// rows longer than ceil(Columns/8) are a matter of C08 (class ccitt-row-overrun, see
+			// fb_ccedge.go, where the same bodies meet the model); they are not compared here
+			if ok, _, _ := oracleCCEdge(p, bad); !ok {
+				c.Stat("cdec_damaged_row_overrun_left_to_C08")
+				continue
 			}
 			dline, _, _ := fbCCDecodeLine(p, bad, r, r.Intn(4), 0)
 			c.Emit(fmt.Sprintf("FB cdec %s %s", p, hexWire(bad)), dline)
